@@ -54,6 +54,17 @@ def rec(rid, prop, conv, keep, src, dst, res, anom, cls_ok=True, what=""):
 
 def network(j, g, rng, attrs=True):
     H = obscore.realise(j, g, rng, shuffle=True)
+    if rng.random() < 0.2:
+        # a network with a past: views were taken, all edges were cleared and put back, a node came later
+        vn, ve = H.nodes, H.edges
+        list(vn), list(ve)
+        saved = [(e, list(H._edge[e]), dict(H._edge_attr[e])) for e in H.edges]
+        H.clear_edges()
+        late = g.node(max(j["nodes"] + [0]) + 1) if g.node_kind != "exotic" else None
+        for e, m, a in saved:
+            H.add_edge(m, idx=e, **a)
+        if late is not None and rng.random() < 0.5 and len(j["nodes"]) < 5:
+            H.add_node(late)
     if attrs and rng.random() < 0.25:  # a network without network attributes, written after ones that have some
         for n in list(H.nodes)[:1]:
             H.nodes[n]["color"] = 3
@@ -66,6 +77,8 @@ def network(j, g, rng, attrs=True):
             H.edges[e]["color"] = 1
         H["wt"] = [7]
         H["color"] = 2
+        if rng.random() < 0.4:
+            H["incoming_data"] = 5  # a network attribute named like a constructor parameter
     if attrs and rng.random() < 0.3:  # attribute names that are parameter names of add_node / add_edge
         H.set_node_attributes({n: {"node": 4} for n in list(H.nodes)[-1:]})
         H.set_edge_attributes({e: {"idx": 2, "members": 1} for e in list(H.edges)[-1:]})
